@@ -196,7 +196,7 @@ func run(c Case) (res vh.Result) {
 				}
 			}
 			// like the production workflows, the list of hosts is a variable; the core derives the detectors from it
-			fmt.Fprintf(&sb, "name: %s\ndefaults:\n  deploy_timeout: 3s\n  hosts: '[%s]'\nroles:\n", wf, strings.Join(hl, ","))
+			fmt.Fprintf(&sb, "name: %s\ndefaults:\n  deploy_timeout: 6s\n  hosts: '[%s]'\nroles:\n", wf, strings.Join(hl, ","))
 			needs := []string{}
 			for h := 0; h < 3; h++ {
 				if mask&(1<<h) != 0 {
@@ -475,7 +475,7 @@ func gen(t *rapid.T) Case {
 
 func TestOwnership(t *testing.T) {
 	defer simworld.Discard()
-	vh.Check(t, prop, gen, run)
+	vh.Check(t, prop, gen, vh.Confirmed(run))
 }
 
 func one(ops ...Op) [][]Op {
@@ -490,18 +490,18 @@ func TestFixed(t *testing.T) {
 	defer simworld.Discard()
 	// two environments on disjoint hosts, a third wants a busy detector; cleanup while both live; destroy one
 	vh.Fixed(t, prop, "conflict-and-cleanup", Case{Batches: one(Op{Kind: "create", Hosts: 0}, Op{Kind: "create", Hosts: 1}, Op{Kind: "create", Hosts: 2},
-		Op{Kind: "cleanup"}, Op{Kind: "control", Env: 0, Ctl: "START_ACTIVITY"}, Op{Kind: "cleanup", Listed: 255}, Op{Kind: "destroy", Env: 1}, Op{Kind: "control", Env: 0, Ctl: "STOP_ACTIVITY"})}, run)
+		Op{Kind: "cleanup"}, Op{Kind: "control", Env: 0, Ctl: "START_ACTIVITY"}, Op{Kind: "cleanup", Listed: 255}, Op{Kind: "destroy", Env: 1}, Op{Kind: "control", Env: 0, Ctl: "STOP_ACTIVITY"})}, vh.Confirmed(run))
 	// keep tasks, then a new environment on the same host with task reuse, then cleanup
 	vh.Fixed(t, prop, "keep-tasks-then-reuse", Case{Reuse: true, Batches: one(Op{Kind: "create", Hosts: 0}, Op{Kind: "create", Hosts: 1}, Op{Kind: "destroy", Env: 0, KeepTasks: true},
-		Op{Kind: "create", Hosts: 0}, Op{Kind: "cleanup"}, Op{Kind: "control", Env: 1, Ctl: "START_ACTIVITY"}, Op{Kind: "destroy", Env: 0, Force: true}, Op{Kind: "cleanup", Listed: 255})}, run)
+		Op{Kind: "create", Hosts: 0}, Op{Kind: "cleanup"}, Op{Kind: "control", Env: 1, Ctl: "START_ACTIVITY"}, Op{Kind: "destroy", Env: 0, Force: true}, Op{Kind: "cleanup", Listed: 255})}, vh.Confirmed(run))
 	// slow transitions and slow kills with concurrent callers
 	vh.Fixed(t, prop, "destroy-cleanup-create-concurrently", Case{Reuse: true, KillDelayMs: 250, ReplyDelayMs: 40, Batches: [][]Op{
 		{{Kind: "create", Hosts: 0}}, {{Kind: "create", Hosts: 1}}, {{Kind: "destroy", Env: 0, KeepTasks: true}}, {{Kind: "create", Hosts: 3}},
 		{{Kind: "destroy", Env: 1, Force: true}, {Kind: "cleanup", Listed: 255}, {Kind: "create", Hosts: 0}},
-		{{Kind: "control", Env: 0, Ctl: "START_ACTIVITY"}, {Kind: "cleanup"}, {Kind: "destroy", Env: 1}}}}, run)
+		{{Kind: "control", Env: 0, Ctl: "START_ACTIVITY"}, {Kind: "cleanup"}, {Kind: "destroy", Env: 1}}}}, vh.Confirmed(run))
 	// a kill operation is in flight (slow acknowledgement) while a second, listed cleanup and a create that reuses the listed task race
 	vh.Fixed(t, prop, "listed-cleanup-races-with-reuse", Case{Reuse: true, KillCallMs: 300, Batches: [][]Op{
 		{{Kind: "create", Hosts: 0}}, {{Kind: "create", Hosts: 1}}, {{Kind: "destroy", Env: 0, KeepTasks: true}}, {{Kind: "destroy", Env: 0, KeepTasks: true}},
 		{{Kind: "cleanup", Listed: 1, ListHost: 2}, {Kind: "cleanup", Listed: 1, ListHost: 1}, {Kind: "create", Hosts: 0}},
-		{{Kind: "cleanup"}}}}, run)
+		{{Kind: "cleanup"}}}}, vh.Confirmed(run))
 }
